@@ -370,8 +370,8 @@ class Negative(Term):
 
     def get_sql(self, ctx: SqlContext) -> str:
         term_sql = self.term.get_sql(ctx.copy(with_alias=False))
-        if term_sql.startswith("-"):
-            # two adjacent minus signs would open a comment
+        if term_sql.startswith("-") or isinstance(self.term, ArithmeticExpression):
+            # two adjacent minus signs would open a comment; unary minus binds tighter than + - * /
             term_sql = "({})".format(term_sql)
         return "-{term}".format(term=term_sql)
 
